@@ -5,6 +5,8 @@ use crate::findings::Findings;
 use crate::model::Model;
 use crate::ops::*;
 use crate::sut::{self, key_bytes, to_meta, wait_quiet, Cfg, LoadMode, MetaMap, Pred, Sut, RR};
+#[allow(unused_imports)]
+use crate::ops::BlobDamage;
 use bytes::Bytes;
 use std::collections::BTreeSet;
 use std::path::{Path, PathBuf};
@@ -341,6 +343,9 @@ impl<'a> Exec<'a> {
                 }
                 self.labels.insert("burst");
             }
+            Op::CrashReopen { lazy, damage } => {
+                self.crash_reopen(*lazy, damage).await?;
+            }
             Op::Fail { .. } | Op::Cancel { .. } => {
                 // interpreted by the property modules that use them
             }
@@ -408,6 +413,59 @@ impl<'a> Exec<'a> {
         }
         self.open(lazy).await?;
         self.model.restart(lazy);
+        Ok(())
+    }
+
+    /// Clean close, harness-made damage to blob files (a crash state), init. Every blob that no longer parses
+    /// completely must be quarantined (its stale index file is removed by the harness so that init has to scan it);
+    /// the model forgets those blobs.
+    pub async fn crash_reopen(&mut self, lazy: bool, damage: &[BlobDamage]) -> R {
+        let _ = wait_quiet(self.s(), false, max_wait()).await;
+        self.close().await?;
+        self.stats.reopens += 1;
+        self.labels.insert("reopen");
+        self.labels.insert("crash_reopen");
+        for d in damage {
+            crate::damage::apply_blob_damage(&self.dir, d, self.cfg.keylen);
+        }
+        let mut expect_quarantined = vec![];
+        let mut all_ids = vec![];
+        for (id, is_idx, p) in sut::list_files(&self.dir) {
+            if is_idx {
+                continue;
+            }
+            all_ids.push(id);
+            let parsed = match crate::blobfmt::parse_blob_file(&p, self.cfg.keylen) {
+                Ok(x) => x,
+                Err(e) => return self.fail("harness/read", e.to_string()),
+            };
+            let ok = parsed.magic_ok && parsed.version == 1 && parsed.end == crate::blobfmt::ParseEnd::Clean && (!self.cfg.validate_data || parsed.records.iter().all(|r| r.data_crc_ok));
+            if !ok {
+                expect_quarantined.push(id);
+                let _ = std::fs::remove_file(sut::index_path(&self.dir, id));
+            }
+        }
+        // init looks at the work dir only when it decides between "existing storage" and "fresh storage"
+        let had_files = !all_ids.is_empty();
+        for (id, is_idx, _) in sut::list_files(&self.dir.join("corrupted")) {
+            if !is_idx {
+                all_ids.push(id);
+            }
+        }
+        self.open(lazy).await?;
+        for id in &expect_quarantined {
+            if sut::blob_path(&self.dir, *id).exists() && !self.cfg.ignore_corrupted {
+                return self.fail("crash/damaged-blob-accepted", format!("blob {} does not parse completely but stayed in the work dir", id));
+            }
+            if self.model.blobs.contains_key(id) {
+                self.model.quarantine(*id);
+            } else {
+                self.model.quarantined.push(*id);
+            }
+            self.labels.insert("quarantine");
+        }
+        let floor = all_ids.iter().max().map_or(0, |m| m + 1);
+        self.model.restart_ext(lazy, had_files, floor);
         Ok(())
     }
 
